@@ -101,6 +101,14 @@ func pBig(args []string) string {
 		inner := bigVol(uefigen.FFS2, 64, 0, small)
 		x = bigVol(uefigen.FFS2, 4096, 8192, bigFile(0xA1, 0x02, bigSec(0x19, make([]byte, size))),
 			bigFile(0xB1, 0x0B, bigSec(0x17, inner)))
+	case "au": // large file, then a sibling file whose nested volume has a file system fiano does not parse
+		var other [16]byte
+		for i := range other {
+			other[i] = 0x5A
+		}
+		inner := bigVol(other, 64, 128)
+		x = bigVol(uefigen.FFS2, 4096, 8192, bigFile(0xA1, 0x02, bigSec(0x19, make([]byte, size))),
+			bigFile(0xB1, 0x0B, bigSec(0x17, inner)))
 	case "z", "l": // a compressed section whose total size (24 + encoded payload) is `size`
 		kind := 3
 		if args[0] == "l" {
@@ -125,10 +133,10 @@ func pBig(args []string) string {
 	default:
 		return "harness-error shape"
 	}
-	if r := deepCheck(x); r != "ok" {
+	if r := deepCheck(x, true); r != "ok" {
 		return fmt.Sprintf("%s [16MiB-%s-%s]", r, args[0], args[1])
 	}
-	if r := fixedCheck(x); r != "ok" {
+	if r := fixedCheck(x, true); r != "ok" {
 		return fmt.Sprintf("%s [16MiB-%s-%s]", r, args[0], args[1])
 	}
 	return "ok"
